@@ -64,11 +64,13 @@ class CapturedPath:
         for subpath_item in subpath:
           path, prev_edge = self._push_item_on_se_path(path, prev_edge,
               subpath_item)
+        prev_edge = prev_edge_subpath
       else:
         for subpath_item in reversed(subpath):
           path, prev_edge = self._push_item_on_se_path(path, prev_edge,
               subpath_item.inverted())
-      prev_edge = prev_edge_subpath
+        # the reversed subpath ends with the first segment of the subpath
+        prev_edge = item.line._first_segment_is_implied()
     elif isinstance(item.line, gfapy.line.unknown.Unknown):
       raise gfapy.RuntimeError(
         "Captured path cannot be computed; a reference has not been resolved\n"+
@@ -81,6 +83,19 @@ class CapturedPath:
         "Error: items of type {} are not supported\t".format(item.line.__class__.__name__)+
         "Unsupported item: {}".format(item))
     return path, prev_edge
+
+  def _first_segment_is_implied(self):
+    # is the first segment of the captured path not an item of the group,
+    # but implied by an edge which is the first item?
+    first = self.items[0]
+    if isinstance(first.line, gfapy.line.edge.GFA2):
+      return True
+    elif isinstance(first.line, gfapy.line.group.Ordered):
+      if first.orient == "+":
+        return first.line._first_segment_is_implied()
+      else:
+        return first.line._compute_captured_path()[1]
+    return False
 
   def _push_first_edge_on_se_path(self, path, items):
     oriented_edge = items[0]
